@@ -59,6 +59,11 @@ def is_unique_of(t, labels):
 
 def preimage(ctx, t, qn):
     """(ok, selector, why): t == np.where(np.isin(labels, block_ids[S]))[0]"""
+    # np.nonzero(m)[0] is np.where(m)[0]; np.flatnonzero(m) is the same for the 1-D label array block_split returns (C08.R4)
+    if t[0] == "call" and callee(t) == "numpy.flatnonzero" and len(t[2]) == 1 and not t[3]:
+        t = ("sub", ("call", ("glob", "numpy.where"), t[2], (), 0), const(0))
+    elif t[0] == "sub" and t[1][0] == "call" and callee(t[1]) == "numpy.nonzero" and len(t[1][2]) == 1 and not t[1][3]:
+        t = ("sub", ("call", ("glob", "numpy.where"), t[1][2], (), 0), t[2])
     if not (t[0] == "sub" and t[2] == const(0) and t[1][0] == "call" and callee(t[1]) == "numpy.where" and len(t[1][2]) == 1):
         if t[0] == "sub" and is_int(t[2]) and t[1][0] == "call" and callee(t[1]) == "numpy.where":
             return False, None, "element %d of np.where" % t[2][1]
@@ -155,11 +160,13 @@ def r2_complement(ctx):
             y = ys[0]
             el_ok = y[0] == "tuple" and len(y[1]) == 2 and all(a[0] == "sub" and a[1][0] == "elem" and a[1][1] == sup[0] for a in y[1]) and [a[2] for a in y[1]] == [const(0), const(1)]
             sw = y[0] == "tuple" and len(y[1]) == 2 and [a[2] if a[0] == "sub" else None for a in y[1]] == [const(1), const(0)]
+            if y[0] == "elem" and y[1] == sup[0]:
+                el_ok = True          # `yield from super().split(...)`: the pairs are passed on as they are
             ok = True if args_ok and el_ok else (False if sw else None)
         ctx.check("R2", qn + "|re-yields-super-split", ok, "split yields (train, test) exactly as scikit-learn's BaseCrossValidator.split produces them", bad="train and test are swapped", fn=qn)
     init = BASE + ".__init__"
-    nei = any(p.exit == "raise" and lookup(p.decided, ("cmp", "is", ("param", "spacing"), NONE)) is True and lookup(p.decided, ("cmp", "is", ("param", "shape"), NONE)) is True for p in ctx.paths(init))
-    ctx.check("R2", init + "|rejects-neither", True if nei else False, "neither spacing nor shape raises", bad="neither spacing nor shape is accepted", fn=init)
+    _both, nei = K.both_neither(ctx, init, "spacing", "shape")
+    ctx.check("R2", init + "|rejects-neither", nei, "neither spacing nor shape raises", bad="neither spacing nor shape is accepted", fn=init)
 
 
 def r3_folds(ctx):
@@ -414,17 +421,27 @@ def r7_partition_guards(ctx):
                   bad="the ideal part sum is not the floor of total / parts: (parts - 1) * ideal can reach the total, searchsorted(side='right') then returns n and np.split leaves the last fold empty", fn=qn)
         guards = [c for c, _val in p.conds]          # decisions are literals: the polarity depends on how the guard is spelled
         dup = any(any(x[0] == "call" and callee(x) == "numpy.unique" and x[2] == (v,) for x in walk(g)) or any(x[0] == "call" and callee(x) == "numpy.diff" and x[2] and x[2][0] == v for x in walk(g)) for g in guards)
-        zero = False
-        for g in guards:
+        def is_zero(g):
             for x in walk(g):
                 if x[0] == "cmp" and x[1] in ("==", "<", "<=", "in", ">", ">=", "!=") and any(y == v or (y[0] == "sub" and y[1] == v) or (y[0] == "call" and y[1][0] == "attr" and y[1][1] == v and y[1][2] == "min") or (y[0] == "call" and callee(y) in ("numpy.min", "numpy.amin") and y[2] == (v,)) for y in (x[2], x[3])) \
                         and any(is_const(y) and y[1] in (0, 1) for y in (x[2], x[3])):
-                    zero = True
+                    return True
                 if x[0] == "call" and callee(x) == "numpy.diff" and x[2] and x[2][0][0] == "call" and callee(x[2][0]) in ("numpy.concatenate", "numpy.r_", "numpy.append", "numpy.insert", "numpy.hstack"):
-                    zero = True
-        ctx.check("R7", qn + "|rejects-repeated-split-points", True if dup else False, "repeated split points (an empty middle part) raise before the return",
+                    return True
+            return False
+        zero = any(is_zero(g) for g in guards)
+        # decisions of the return path that look at the split points in a way neither test above recognises (np.all(points), a comparison of
+        # neighbours, ...) could be either guard written differently: the verdict "missing" needs every such decision to be accounted for
+        def is_dup(g):
+            return any(x[0] == "call" and callee(x) == "numpy.unique" and x[2] == (v,) for x in walk(g)) or any(x[0] == "call" and callee(x) == "numpy.diff" and x[2] and x[2][0] == v for x in walk(g))
+        other = [g for g in guards if any(x == v for x in walk(g)) and not is_dup(g) and not is_zero(g)]
+        if not zero and other:
+            zero = None
+        if not dup and other:
+            dup = None
+        ctx.check("R7", qn + "|rejects-repeated-split-points", True if dup else (None if dup is None else False), "repeated split points (an empty middle part) raise before the return",
                   bad="repeated split points are returned: np.split then produces an empty fold", fn=qn)
-        ctx.check("R7", qn + "|rejects-split-point-at-0", True if zero else False, "a split point at 0 (an empty first part) raises before the return",
+        ctx.check("R7", qn + "|rejects-split-point-at-0", True if zero else (None if zero is None else False), "a split point at 0 (an empty first part) raises before the return",
                   bad="a split point at 0 is returned when the first element exceeds total // parts: np.split then produces an empty first fold "
                       "(BlockKFold yields an empty test set, e.g. 50 points in the first block and 1 in each of 3 others, n_splits=2)", fn=qn)
     if not rets:
